@@ -1,7 +1,8 @@
 (* C19 — property theorems only.  Each is closed by [exact]; see C19/Proofs.v.
    [exec] (subprocess.call and the outside world) and [echo] are arbitrary. *)
 From Coq Require Import String List ZArith.
-From VV Require Import Lib.Base C19.Model C19.Proofs.
+From VV Require Import Sched.Model Sched.Defs Sched.ProofsC02.
+From VV Require Import Lib.Base C19.Model C19.Proofs C19.Compose.
 Import ListNotations.
 
 (* DONE exactly when every command was run and exited with status zero *)
@@ -122,3 +123,27 @@ Theorem C19_dir_belongs_to_task :
        root ++ [name'] ++ [f] <> dir_of root name).
 Proof. exact dir_belongs_to_task. Qed.
 Print Assumptions C19_dir_belongs_to_task.
+
+(* composition with the scheduler model of C01-C04 (any number of workers, any
+   interleaving, any dependency graph): when every task of the configuration
+   is a RunTask whose do() is [do_task] (in whatever world it starts), every
+   complete run gives every task the status of C02's specification; DONE
+   exactly when no hard dependency failed, the name is usable and all commands
+   exit with zero; a command that cannot be started makes the task FAILED
+   (SKIPPED if a hard dependency failed before), and the run completes *)
+Theorem C19_cannot_start_fails_task_not_run :
+  forall (cmd world : Type) (exec : cmd -> world -> C19.Model.outcome * world) (echo : cmd -> string)
+         (root : path) (tasks : nat -> task cmd) (worlds : nat -> world) (fss : nat -> fsys) (c : cfg),
+  wf_cfg c ->
+  (forall t, t < ntasks c -> oc c t = oc_of (do_result cmd world exec echo root tasks worlds fss t)) ->
+  forall st0 clk s, reachable c (fun _ => no_entry) st0 clk s -> mp s = MReturned ->
+  forall t, t < ntasks c ->
+    est (Sched.Model.env s t) = spec_status c t /\
+    (est (Sched.Model.env s t) = Some Sched.Model.DONE <->
+       spec_status c t <> Some SKIPPED /\ good_name (t_name (tasks t))
+       /\ all_exit_zero cmd world exec tasks worlds t) /\
+    (cannot_start cmd world exec tasks worlds t ->
+       (est (Sched.Model.env s t) = Some Sched.Model.FAILED \/ est (Sched.Model.env s t) = Some SKIPPED) /\
+       (spec_status c t <> Some SKIPPED -> est (Sched.Model.env s t) = Some Sched.Model.FAILED)).
+Proof. exact cannot_start_fails_task_not_run. Qed.
+Print Assumptions C19_cannot_start_fails_task_not_run.
